@@ -33,6 +33,7 @@ def configs(tier):
             out.append({'integrator': integ, 'S': 2, 'K': 2, 'stop': 'maxit', 'call': 'solve'})
             out.append({'integrator': integ, 'S': 1, 'K': 2, 'stop': 'both', 'call': 'solve'})
         for integ in ['explicit', 'rk3ssp', 'implicit']:
+            out.append({'integrator': integ, 'S': 1, 'K': 2, 'stop': 'maxit', 'call': 'solve', 'linear': True})     # model.islinear = 1 code paths
             out.append({'integrator': integ, 'S': 0, 'K': 2, 'stop': 'both', 'call': 'solve'})
             out.append({'integrator': integ, 'S': 1, 'K': 2, 'stop': 'maxit', 'call': 'restart', 'it0': 5})
             out.append({'integrator': integ, 'S': 1, 'K': 2, 'stop': 'maxit', 'call': 'solve', 'dtlocal': True})
@@ -41,6 +42,7 @@ def configs(tier):
             for S, K in [(3, 3), (2, 3)]:
                 out.append({'integrator': integ, 'S': S, 'K': K, 'stop': 'maxit', 'call': 'solve', 'timeout_ms': 60000})
             out.append({'integrator': integ, 'S': 2, 'K': 3, 'stop': 'both', 'call': 'solve'})
+            out.append({'integrator': integ, 'S': 1, 'K': 3, 'stop': 'maxit', 'call': 'solve', 'linear': True})
             out.append({'integrator': integ, 'S': 0, 'K': 3, 'stop': 'both', 'call': 'solve'})
             out.append({'integrator': integ, 'S': 2, 'K': 2, 'stop': 'maxit', 'call': 'restart', 'it0': 5})
             out.append({'integrator': integ, 'S': 1, 'K': 2, 'stop': 'maxit', 'call': 'solve', 'dtlocal': True})
@@ -64,7 +66,7 @@ def harness(cfg, B):
     n = 2
     integ, S, K = cfg['integrator'], cfg['S'], cfg['K']
     dtlocal = bool(cfg.get('dtlocal'))
-    solver, disc, model, mesh = stubs.make(B, integ, n=n, dt_array=dtlocal)
+    solver, disc, model, mesh = stubs.make(B, integ, n=n, dt_array=dtlocal, islinear=1 if cfg.get('linear') else 0)
     t0 = B.var('t0', -1.0, 1.0)
     ts = [B.var('s%d' % i, -1.0, 3.0) for i in range(S)]
     for i in range(S - 1):
